@@ -34,7 +34,7 @@ MANIFEST = {
     "(gated_iff_flag); the model's whole observation trace equals that of an object-free scoping interpreter "
     "(trace_refines_spec) and, for programs made of with-blocks only, of a state-free lexical reading (inline_lexical). "
     "Model tied to /repo on every run by executing generated trees with the real context managers and real .check() "
-    "calls on 8 feature-using programs (quick 600 random trees; thorough all trees <=5 nodes x 2 flags + 15000 random).",
+    "calls on 8 feature-using programs (quick 600 random trees; thorough all trees <=5 nodes x 2 flags + 30000 random).",
     "level_note": "Trusted: Lean kernel + propext/Classical.choice/Quot.sound; the hand-written model (correspondence is "
     "sampling, exhaustive for small trees in the thorough tier); one fixed program per gate call site stands for 'programs "
     "using the feature'; CPython's with-statement semantics.",
@@ -387,7 +387,7 @@ def _cases(ctx):
                     n_ex += 1
         ctx.extra["exhaustive"] = True
         ctx.extra["exhaustive_note"] = f"all {n_ex} (initial flag, tree) pairs with <=5 nodes (one kept-object variable, one program per feature)"
-    for _ in range(ctx.n(600, 15000)):
+    for _ in range(ctx.n(600, 30000)):
         cases.append((ctx.rng.random() < 0.5, _rand_tree(ctx.rng, ctx.rng.choice([1, 2, 3, 3, 4]))))
     return cases
 
